@@ -32,7 +32,8 @@ Set_(n, l) == listing' = [listing EXCEPT ![n] = l]
 AddLabel(n)   == Fresh(0) /\ Ins_(n, LabelLine("0000000000401000", "main"))
 AddBlank(n)   == Fresh(0) /\ Ins_(n, BlankLine)
 AddSection(n) == Fresh(0) /\ Ins_(n, SectionLine(".text"))
-AddHeader(n)  == Fresh(0) /\ Ins_(n, HeaderLine("a.out:     file format elf64-x86-64"))
+AddHeader(n)  == Fresh(0) /\ \E h \in {"a.out:     file format elf64-x86-64", "blob.bin:     file format binary",
+                                            "x.o:     file format elf32-iamcu"} : Ins_(n, HeaderLine(h))
 AddEllipsis(n) == Fresh(0) /\ Ins_(n, EllipsisLine)
 DropDecoration(n) == listing[n].kind \in {"label", "blank", "section", "header", "ellipsis"} /\ Del_(n)
 SetSym(n, s)  == IsInsn(listing[n]) /\ listing[n].ops # <<>> /\ listing[n].sym # s /\ Set_(n, [listing[n] EXCEPT !.sym = s])
